@@ -67,7 +67,8 @@ struct C03 : public Driver {
         if (dc.bigNum) { sc.on.insert("bigfmt"); sc.on.insert("valnum"); }
         if (g.chance(1, 3)) sc.on.insert("padsupp");
         const bool gated = g.chance(1, 3); if (gated) { sc.on.insert("gate"); if (g.chance(1, 2)) sc.on.insert("num-gate"); if (g.chance(1, 2)) sc.on.insert("sort-gate"); }
-        sc.dfVariant = (int)g.below(3);
+        sc.dfVariant = (int)g.below(3); sc.keyVariant = (int)g.below(3);
+        { unsigned m = (unsigned)g.below(12); if (m == 0) { sc.method = ""; sc.rootName = "html"; } else if (m == 1) sc.method = "html"; else if (m == 2) sc.method = "text"; else if (m == 3) { sc.method = ""; } }   // output method: xml mostly; html, text, and the switch to html after the first element
         const bool noslash = g.chance(1, 12); if (noslash) { sc.sysIdStyle = "noslash"; sc.useInclude = true; }
         { static const std::vector<std::string> langs = { "de", "fr", "en" }; static const std::vector<std::string> cases = { "", "upper-first", "lower-first" }; sc.sortLang = g.pick(langs); sc.sortCase = g.pick(cases); }
         sc.useImport = g.chance(1, 3); sc.useInclude = g.chance(1, 4); sc.docFn = g.chance(1, 3); sc.stripSpace = g.chance(1, 4); sc.dupExtPrefix = g.chance(1, 6);
